@@ -12,7 +12,7 @@ STYLUA = os.path.join(TARGET_CLI, "release", "stylua")
 MODELD = os.path.join(LEAN, ".lake", "build", "bin", "modeld")
 EVID = os.path.join(ROOT, "evidence")
 REPLAY = os.path.join(ROOT, "replay")
-REPO = "/repo"
+REPO = os.environ.get("VERIF_REPO", "/repo")  # override: developer runs of seeded changes on a snapshot only
 ALLOWED_AXIOMS = {"propext", "Classical.choice", "Quot.sound"}
 FEATURES = "luau,lua52,lua53,lua54,luajit,serialize,fromstr,editorconfig"
 GUARD = "stylua_verif"
